@@ -71,6 +71,7 @@ type Result struct {
 	Unmodelled    int            `json:"unmodelled"`
 	Disagreements int            `json:"disagreements"`
 	OracleFails   int            `json:"oracle_failures"`
+	KnownHits     int            `json:"known_finding_hits"`
 	Findings      []Finding      `json:"findings"`
 	Samples       []interface{}  `json:"samples"`
 	Hist          map[string]int `json:"hist"`
@@ -99,13 +100,22 @@ func (r *Result) count(key string, nontrivial bool) {
 }
 
 func (r *Result) add(f Finding) {
-	if f.Kind == "oracle" {
+	switch f.Kind {
+	case "oracle":
 		r.OracleFails++
-	} else {
+	case "known":
+		r.KnownHits++
+		f.Known = f.Known // attributed to a listed class by the runner; bin/check verifies the class is listed
+		for _, g := range r.Findings {
+			if g.Kind == "known" && g.Known == f.Known {
+				return // one representative per class is enough
+			}
+		}
+	default:
 		r.Disagreements++
 	}
 	// oracle failures first, keep the smallest few of each kind
-	if len(r.Findings) < 40 {
+	if len(r.Findings) < 40 || f.Kind == "known" {
 		r.Findings = append(r.Findings, f)
 	}
 }
